@@ -300,7 +300,9 @@ func monitorUCI(sc *UCIScenario, out *UCIOutcome) (vs []Violation, windows []*go
 		// a request without a clock of the mover and without a move time must
 		// reach the search without a time limit: otherwise its result depends on
 		// the wall clock (C08)
-		if clk := parseGoClock(w.goLine); clk.movetime <= 0 && w.call.Opts.SoftTime != 0 {
+		// (a limit beyond every clock value the properties speak about, 10^12 ms,
+		// cannot bind and is not one)
+		if clk := parseGoClock(w.goLine); clk.movetime <= 0 && w.call.Opts.SoftTime != 0 && w.call.Opts.SoftTime < 10_000_000_000_000 {
 			own := clk.btime
 			if w.game.Cur().White {
 				own = clk.wtime
